@@ -173,6 +173,10 @@ func checkC05(c *Check) {
 			c.OK("REQ:"+strings.TrimPrefix(r, "C05."), "request phase", fmt.Sprintf("%d write sites in %d request-phase functions classified; none targets shared state", nStores, len(reqList)), nStores)
 		}
 	}
+	// the render a request gets is allocated while serving it (C17.R3): a render built once at set-up and bound
+	// into the middleware (a method value on a value declared in Renderer) is written by every request
+	c.curRule = "C05.R4"
+	c.Share("C17", []string{"R3"}, 1)
 	// the per-request chain is a fresh slice (C03.R7): appending the route's handlers onto the application's
 	// own list — or onto a grown copy that may alias it — makes overlapping requests write one backing array
 	c.curRule = "C05.R4"
